@@ -9,7 +9,9 @@ import (
 	"bufio"
 	"fmt"
 	"os"
+	"strconv"
 	"strings"
+	"time"
 )
 
 type handler func(s *sess, tk []string)
@@ -24,10 +26,14 @@ type sess struct {
 	dir  string // directory of the current case
 	caseN int
 	st   map[string]interface{}
+	t0   int64 // wall clock (Unix seconds) at the start of the current case
 }
 
 func (s *sess) obs(format string, a ...interface{}) {
 	fmt.Fprintf(s.out, "< "+format+"\n", a...)
+	if os.Getenv("WTDRIVER_FLUSH") != "" {
+		s.out.Flush()
+	}
 }
 func (s *sess) echo(line string) { fmt.Fprintf(s.out, "> %s\n", line) }
 
@@ -62,9 +68,15 @@ func main() {
 			s.caseN++
 			s.dir = fmt.Sprintf("%s/c%d", root, s.caseN)
 			must(os.MkdirAll(s.dir, 0755))
+			s.t0 = time.Now().Unix()
 			s.echo(line)
 			continue
 		}
+		// "@", "@-5", "@+3": times relative to the wall clock at the start of the case
+		for i, t := range tk {
+			tk[i] = s.resolveTime(t)
+		}
+		line = strings.Join(tk, " ")
 		h := handlers[tk[0]]
 		if h == nil {
 			fmt.Fprintf(os.Stderr, "wtdriver: unknown op %q\n", tk[0])
@@ -96,4 +108,35 @@ func must(err error) {
 	if err != nil {
 		panic(harnessError{err})
 	}
+}
+
+func (s *sess) resolveTime(t string) string {
+	// also inside key=value tokens and comma separated lists
+	if !strings.Contains(t, "@") {
+		return t
+	}
+	var b strings.Builder
+	for i := 0; i < len(t); {
+		if t[i] != '@' {
+			b.WriteByte(t[i])
+			i++
+			continue
+		}
+		j := i + 1
+		if j < len(t) && (t[j] == '+' || t[j] == '-') {
+			j++
+			for j < len(t) && t[j] >= '0' && t[j] <= '9' {
+				j++
+			}
+		}
+		off := int64(0)
+		if j > i+1 {
+			var err error
+			off, err = strconv.ParseInt(t[i+1:j], 10, 64)
+			must(err)
+		}
+		b.WriteString(strconv.FormatInt(s.t0+off, 10))
+		i = j
+	}
+	return b.String()
 }
